@@ -211,6 +211,23 @@ func c09(r *Run) {
 			wit := ss2.Find([]Start{After(u)}, func(x ssa.Instruction) bool { return px.May(x, "usercb") }, true)
 			r.Visited += ss2.Visited
 			r.obW("C09.R4:connect-task:reread-after-unlock(connecting)"+key, "after unlock(connecting) the connect task first re-reads the closing state: a poller whose onDisconnect() failed to take the lock relies on the task to deliver OnDisconnect", ro.task, u, wit, "closing re-read directly after the unlock")
+			// whenever the task goes on without helping, it has seen the connection ACTIVE (not merely "not closed by the
+			// poller": a peer close followed by the user's own Close inside OnConnect still owes an OnDisconnect)
+			{
+				helps := func(x ssa.Instruction) bool {
+					if isCall(x, ro.onDisconnectM) {
+						return true
+					}
+					c, ok := x.(*ssa.Call)
+					return ok && isCallOf(chg, stConn, stDis)(c)
+				}
+				ss3 := &Search{Fn: ro.task, Stop: helps, CutEdge: cutOn(activeFact(ro))}
+				wit3 := ss3.Find([]Start{After(u)}, func(x ssa.Instruction) bool {
+					return userCallbackKind(x) == "OnRequest" || isCall(x, ro.closeCallback) || isKeyCall(x, ro.unlock, ro.kProcessing)
+				}, true)
+				r.Visited += ss3.Visited
+				r.obW("C09.R4:connect-task:no-help-only-if-active"+key, "after unlock(connecting) the task continues without delivering OnDisconnect only on an edge where it observed the connection active - any kind of close (by the peer, or by the peer and then the user) is helped", ro.task, u, wit3, "onDisconnect()/CAS, or an active observation, on every path")
+			}
 			var starts []Start
 			for _, e := range edgesEstablishing(ro.task, closed) {
 				if condUsesAny(edgeCond(e), first) {
